@@ -176,6 +176,20 @@ CLAIMED = {
    note=("partial (weakest of the proof-level claims): Lean proves shape lemmas only; the denotation clause is a direct check on the implementation; "
          "open findings: KF-C11-td-field-names, KF-C11-td-class-name-collision, KF-C11-same-name-two-modules"),
    technique="Lean 4 model + shape theorems; executable correspondence (text, imports, class names); direct evaluation of generated stubs"),
+ "C14": dict(
+   text=("Lean 4 theorems with set/dict iteration order, hash seeds and memory layout modelled as arbitrary permutation and duplication of "
+         "lists: the members of typing.Union[...] are exactly the members of its arguments, so they do not depend on argument order or "
+         "multiplicity (mkUnion_members, mkUnion_perm, mkUnion_dup); which keys of a merged TypedDict are required / optional does not "
+         "depend on the order or multiplicity of the merged dicts (reqKeys_perm, optKeys_perm, reqKeys_dup); batch / connection / process "
+         "splits disappear through C09's adds_commute and stale rows through C10. Order-independence of the whole shrink_types result is a "
+         "stated proposition (ShrinkPerm), evaluated not proved. The property itself is checked directly: `stub` is run in fresh interpreter "
+         "processes with different PYTHONHASHSEED values on stores built from permutations, duplications and batch splits of trace pools, "
+         "k in {0,3}, with and without rewriting, and the ast-canonicalised outputs must coincide."),
+   ref="DESIGN.md section 4 C14",
+   note=("partial: ShrinkPerm not proved; the cross-process comparison is an exploration (model-free direct check). Observation: at library level "
+         "build_module_stubs_from_traces is order-dependent when two generated TypedDict classes collide by name (C11 finding); through the CLI the "
+         "store returns rows GROUP BY-sorted, which masks it"),
+   technique="Lean 4 proof (membership characterisations under permutation) + cross-process differential runs of the real CLI"),
 }
 
 NOT_YET = "check not built yet (build in progress; see DESIGN.md section 10)"
